@@ -37,3 +37,14 @@ def last_failed_mutation(result, upto_line):
                 return i + 1, ls[i]
         i -= 2
     return None
+
+
+def corpus_traces(pid):
+    """minimised past disagreements kept under corpus/ (they run first)"""
+    import glob, os
+    from . import core
+    out = []
+    for f in sorted(glob.glob(os.path.join(core.VERIF, "corpus", pid + "-*.ops"))):
+        ops = "\n".join(l for l in open(f).read().splitlines() if not l.startswith("##")) + "\n"
+        out.append(Trace("corpus:" + os.path.basename(f), ops))
+    return out
